@@ -131,6 +131,9 @@ class LifeWorld(ConnWorld):
         self.extra_monitors: list[Callable[[Monitor], None]] = []
         self.mon = Monitor(self)
         self.loop._after_cb = self.mon
+        self.before_hooks: list[Callable[[Any], None]] = []
+        self.cb_entry_state: str | None = None
+        self.loop._before_cb = self._before_cb
         self.force_called = False
         self.misuse: list[str] = []
         self.armed: str | None = None
@@ -140,10 +143,44 @@ class LifeWorld(ConnWorld):
         self.ref_closed = False
         self.chunks: list[dict[str, Any]] = []  # one entry per data chunk pushed (atoms, armed fault, state at recv)
         self._recv_idx = 0
+        self.send_hooks: list[Callable[[Any, bytes], None]] = []
         self.net.on_socket = self._hook_socket
+        # observation point "process_packet call": remember the public state at the start of each dispatch
+        self.dispatch_entry_state: str | None = None
+        self.dispatches = 0
+        from aioesphomeapi.connection import APIConnection
+
+        self._apiconn_cls = APIConnection
+        self._orig_process_packet = APIConnection.__dict__.get("process_packet")
+        if self._orig_process_packet is not None:
+            world = self
+            orig = self._orig_process_packet
+
+            def process_packet(conn: Any, t: Any, d: Any) -> None:
+                if conn is world.conn:
+                    world.dispatch_entry_state = world.state()
+                    world.dispatches += 1
+                return orig(conn, t, d)
+
+            APIConnection.process_packet = process_packet  # type: ignore[method-assign]
+
+    def close(self) -> None:
+        if self._orig_process_packet is not None:
+            self._apiconn_cls.process_packet = self._orig_process_packet  # type: ignore[method-assign]
+        super().close()
+
+    def _before_cb(self, handle: Any) -> None:
+        for h in self.before_hooks:
+            h(handle)
+        self.cb_entry_state = self.state()
 
     def _hook_socket(self, s: Any) -> None:
         s.on_recv = self._on_recv
+        s.on_send = self._on_send
+
+    def _on_send(self, s: Any, data: bytes) -> None:
+        for h in self.send_hooks:
+            h(s, data)
 
     def _on_recv(self, s: Any, item: Any) -> None:
         if isinstance(item, (bytes, bytearray)) and len(item) > 0:
@@ -327,7 +364,7 @@ class LifeHarness:
         s = w.sock
         if s is not None and not s.closed:
             if s.connect_called is not None and s.connect_result is None:
-                base += ["tcp:ok", "tcp:err"]
+                base += ["tcp:ok", "tcp:err", "tcp:okrst"]
             elif s.connect_result == 0:
                 ok_atoms = [a for a in self.atoms if self._atom_ok(w, a)]
                 base += [f"c:{a}" for a in ok_atoms]
@@ -406,6 +443,10 @@ class LifeHarness:
         elif label == "tcp:err":
             kind = "io"
             w.io_connect(w.sock, errno.ECONNREFUSED)
+        elif label == "tcp:okrst":
+            kind = "io"
+            w.sock.peer_gone = True  # connect succeeds, then the peer is gone: getpeername() fails with ENOTCONN
+            w.io_connect(w.sock, 0)
         elif label.startswith("c:"):
             kind = "io"
             data = b""
